@@ -11,3 +11,18 @@ pub mod world;
 pub use chooser::Chooser;
 pub use rng::Rng;
 pub use world::{Policy, RunEnd, RunReport, World, WorldCfg};
+
+/// `println!` for code compiled into a harness: see `shim::child::print_line`.
+#[macro_export]
+macro_rules! sim_println {
+    () => { $crate::shim::child::print_line(format_args!("")) };
+    ($($arg:tt)*) => { $crate::shim::child::print_line(format_args!($($arg)*)) };
+}
+
+/// `eprintln!` for code compiled into a harness: diagnostics are formatted
+/// (so that their arguments are evaluated) and dropped.
+#[macro_export]
+macro_rules! sim_eprintln {
+    () => {};
+    ($($arg:tt)*) => { { let _ = format!($($arg)*); } };
+}
